@@ -224,6 +224,12 @@ def lambda_assigned_to(fb, cg, field_suffix, in_function=None):
 def same_section(f, la, e1, e2, mutex):
     """the mutex is held continuously on every path from element e1 to element e2 (no release / wait between).
     Returns (True, None) or (False, witness)."""
+    # the two events may come in either order; unrelated events (no path either way) are NOT one section
+    if search(f, e1, lambda y: y is e2, eh=False) is None:
+        if search(f, e2, lambda y: y is e1, eh=False) is None:
+            return False, "no path between the two events"
+        e1, e2 = e2, e1
+
     def unheld(x):
         return x is not e1 and not la.holds(f, x, mutex)
 
